@@ -240,6 +240,12 @@ def layered(inp):
     elif src_coo.size == 5 and is_dipole:
         strength = strength*src.length
 
+    # A magnetic dipole source is a loop, I^m = i omega mu A I^e; empymod: 'b'.
+    if src.xtype != 'electric' and is_dipole:
+        msrc = 'b'
+    else:
+        msrc = src.xtype != 'electric'
+
     # Collect rec-independent empymod options.
     empymod_opts = {
         # User input ({src;rec}pts, {h;f}t, {h;f}targ, xdirect, loop, verb).
@@ -247,7 +253,7 @@ def layered(inp):
         #
         # Source properties, same for all receivers.
         'src': src_coo,
-        'msrc': src.xtype != 'electric',
+        'msrc': msrc,
         'strength': strength,
         #
         # Enforced properties (not implemented).
